@@ -244,7 +244,7 @@ impl ModelV1 {
         let code: u64 = match resp.kind {
             RespKind::Success { new_balance, data } => {
                 self.sh.balance = new_balance;
-                let tag: u64 = if updated { 1 << 23 } else { 0 };
+                let tag: u64 = if updated && !brk("resp_code") { 1 << 23 } else { 0 };
                 match data {
                     Some(d) => {
                         let len = self.params.len() as u64;
@@ -279,7 +279,7 @@ impl ModelV1 {
                     return Err(trap("write_output past the end of the return value"));
                 }
                 let mut end = offset as usize + length as usize;
-                if self.limit_rv {
+                if self.limit_rv && !brk("limit_rv") {
                     end = end.min(MAX_CONTRACT_STATE);
                 }
                 if self.rv.len() < end {
@@ -378,7 +378,7 @@ impl ModelV1 {
                 self.meter.tick(energy, delete_entry_cost(len))?;
                 let r = range(&mut self.meter, mem, start, len as u64)?;
                 let k = mem[r].to_vec();
-                self.changed_called = true;
+                self.changed_called = !brk("changed_flag");
                 let code = if self.contents.is_empty() {
                     1
                 } else if self.locked_at_or_under(&k) {
@@ -704,7 +704,7 @@ impl ModelV1 {
                     return Err(trap("transfer payload must be 40 bytes"));
                 }
                 let r = range(&mut self.meter, mem, start, 40)?;
-                IntM::Transfer { to: addr32(mem, r.start), amount: u64at(mem, r.start + 32) }
+                IntM::Transfer { to: addr32(mem, r.start), amount: u64at(mem, r.start + 32).wrapping_add(brk("int_amount") as u64) }
             }
             1 => {
                 let r = range(&mut self.meter, mem, start, length as u64)?;
